@@ -401,8 +401,20 @@ class SplineStub:
             ctx.add_def(tot <= Sym.lift(s))
             self.knot_vals = g
 
+    extrapolate = True      # SciPy's attribute: True / False / 'periodic' (callers may set it on the returned object)
+
     def _at(self, q):
         q = Sym.lift(q)
+        if self.extrapolate == "periodic":
+            # SciPy: x = t[k] + (x - t[k]) % (t[n] - t[k]); inside [first, last) nothing changes, the last abscissa wraps to
+            # the first one; other periods are not modelled
+            x0, xn = Sym.lift(self.x[0]), Sym.lift(self.x[-1])
+            if bool(q == xn):
+                q = x0
+            elif bool(q < x0) or bool(q > xn):
+                raise HarnessError("periodic spline evaluated outside its base period: not modelled")
+        elif self.extrapolate is not True:
+            raise HarnessError("spline.extrapolate=%r not modelled" % (self.extrapolate,))
         # value at a data abscissa
         for i, xi in enumerate(self.x):
             xi = Sym.lift(xi)
